@@ -92,12 +92,19 @@ class Md5Trace:
         _httpauth.md5 = self.old
 
 
+BAD_USERS = ('list', 'cbad')
+
+
 def make_users(kind, pairs):
     d = {u: p for u, p in pairs}
     if kind == 'dict':
         return d
     if kind == 'cdict':
         return lambda: dict(d)
+    if kind == 'list':             # neither dict nor callable: check_auth raises ValueError once the header parsed
+        return list(d.items())
+    if kind == 'cbad':             # callable returning something that is not a dict
+        return lambda: list(d.items())
     return lambda username: d.get(username)
 
 
@@ -278,6 +285,20 @@ def _digest_ok(case, user, entry, d):
     return exp is not None and exp == d['response']
 
 
+def variant_of(hdr, fn, enc):
+    """which verification variant a header uses (for the per-variant counts of authenticated cases)"""
+    if hdr is None or ' ' not in hdr:
+        return 'none'
+    scheme, rest = hdr.split(' ', 1)
+    if scheme.lower() == 'basic':
+        return 'basic/encrypt=%s' % {0: 'default', 1: 'str', 2: 'md5hex(table pre-encrypted)', 3: 'two-arg(user:pw)'}[
+            0 if fn == 'digest' else enc]
+    d = dict(lenient_fields(rest))
+    alg = d.get('algorithm')
+    return 'digest/%s/%s' % ('no-qop' if 'qop' not in d else 'qop=' + d['qop'],
+                             'alg-absent' if alg is None else alg)
+
+
 # ------------------------------------------------------------------ generators
 
 USERS = ['admin', 'bob', 'al', 'é', 'None', 'a b']
@@ -320,7 +341,9 @@ def gen_auth_case(rng):
     method = rng.choice(METHODS)
     fn = rng.choice(['basic', 'basic', 'digest', 'check'])
     enc = rng.choice([1, 1, 1, 0, 2, 3]) if fn != 'digest' else 0
-    ukind = rng.choice(['dict', 'dict', 'cdict', 'cfun'])
+    ukind = rng.choice(['dict', 'dict', 'cdict', 'cdict', 'cfun', 'cfun', 'cfun'])
+    if rng.random() < 0.03:
+        ukind = rng.choice(['list', 'cbad'])
     clean = rng.random() < 0.25          # plainly valid credentials in a supported combination
     if clean:
         if not users:
@@ -450,6 +473,17 @@ def auth_table():
             hdr = digest_header(user, crealm, secret, cmethod, qop='auth')
         out.append({'k': 'auth', 'fn': fn, 'enc': 0 if fn == 'digest' else 1, 'ukind': 'dict', 'users': users,
                     'realm': 'R', 'method': 'GET', 'hdr': hdr, 'tag': 'table'})
+    # every supported variant with right and wrong secret, against dict / callable tables
+    for fn, ukind, secret in itertools.product(['basic', 'digest', 'check'], ['dict', 'cdict', 'cfun'], ['pw', 'px']):
+        for qop, alg in [(None, None), (None, 'MD5'), ('auth', None), ('auth', 'MD5'), ('auth', 'MD5-sess')]:
+            out.append({'k': 'auth', 'fn': fn, 'enc': 0 if fn == 'digest' else 1, 'ukind': ukind, 'users': users,
+                        'realm': 'R', 'method': 'GET', 'tag': 'table-variants',
+                        'hdr': digest_header('admin', 'R', secret, 'GET', qop=qop, alg=alg)})
+        if fn != 'digest':
+            for enc in (1, 2, 3):   # tables of clear / pre-encrypted passwords
+                tab = [[u, enc_apply(enc, p, u)] for u, p in users]
+                out.append({'k': 'auth', 'fn': fn, 'enc': enc, 'ukind': ukind, 'users': tab, 'realm': 'R',
+                            'method': 'GET', 'tag': 'table-variants', 'hdr': 'Basic ' + b64s('admin:' + secret)})
     # near misses of a right response
     good = digest_expected('admin', 'R', 'pw', 'GET', '/', 'n0')
     for fn in ('basic', 'digest'):
@@ -497,11 +531,12 @@ def sess_table_big():
     u0, u1, u2 = 'a' * 8, 'b' * 8, 'c' * 8
     first = {'cookie': None, 'ip': '10.0.0.1', 'agent': 'UA', 'act': ['w', 7], 'uuid': u0}
     sid = u0 + '/' + fp('10.0.0.1', 'UA')
-    back = {'cookie': sid, 'ip': '10.0.0.1', 'agent': 'UA', 'act': ['r'], 'uuid': u2}
+    back = {'cookie': {'ref': 0}, 'ip': '10.0.0.1', 'agent': 'UA', 'act': ['r'], 'uuid': u2}
     for ip, agent, act in itertools.product(['10.0.0.1', '10.0.0.2', '10.0.0.12'], ['UA', 'UB', '2UA', None],
                                             [['r'], ['w', 3], ['x']]):
-        for cookie in [sid, None, u0, u0 + '/' + fp(ip, agent), 'zz/' + fp(ip, agent), sid + '/' + fp(ip, agent), '',
-                       sid[:-1], '/' + fp('10.0.0.1', 'UA')]:
+        for cookie in [{'ref': 0}, {'ref': 0, 'fmt': 'quoted'}, {'ref': 0, 'fmt': 'dup-first'}, None, u0,
+                       u0 + '/' + fp(ip, agent), u0 + '/' + fp_concat(ip, agent), 'zz/' + fp(ip, agent),
+                       sid + '/' + fp(ip, agent), '', sid[:-1], '/' + fp('10.0.0.1', 'UA')]:
             out.append({'k': 'sess', 'reqs': [first, {'cookie': cookie, 'ip': ip, 'agent': agent, 'act': act, 'uuid': u1},
                                               back]})
     return out
@@ -576,39 +611,85 @@ def e2e_table():
 
 
 def fp(ip, agent):
+    """who() of the repaired code (fixes/C20_session-fingerprint-separator.patch); used only to forge cookies"""
+    return hashlib.sha1(('%s|%s' % (ip, agent or '')).encode('utf-8')).hexdigest()
+
+
+def fp_concat(ip, agent):
+    """the separator-less fingerprint of the unrepaired code"""
     return hashlib.sha1(('%s%s' % (ip, agent or '')).encode('utf-8')).hexdigest()
 
 
 IPS = ['10.0.0.1', '10.0.0.2', '10.0.0.12', '::1']
 AGENTS = ['UA', 'UB', '2UA', None, '']
 
+# how a cookie value is written into the Cookie header (SimpleCookie normalises; K records what it makes of it)
+COOKIE_FMT = {
+    'plain': lambda v: 'circuits=%s' % v,
+    'quoted': lambda v: 'circuits="%s"' % v,
+    'octal': lambda v: 'circuits="%s"' % v.replace('/', '\\057'),
+    'attrs': lambda v: 'circuits=%s; Path=/; Domain=h.example' % v,
+    'version': lambda v: '$Version=1; circuits=%s; $Path=/' % v,
+    'other': lambda v: 'other=1; circuits=%s; z=2' % v,
+    'dup-last': lambda v: 'circuits=zz; circuits=%s' % v,
+    'dup-first': lambda v: 'circuits=%s; circuits=zz' % v,
+    'case': lambda v: 'Circuits=%s' % v,
+    'spaces': lambda v: ' circuits = %s ;' % v,
+    'comma': lambda v: 'circuits=%s,other=2' % v,
+    'unterminated': lambda v: 'circuits="%s' % v,
+}
+FMT_SAME = ['quoted', 'octal', 'attrs', 'version', 'other', 'dup-last', 'spaces']     # SimpleCookie yields v again
+FMT_OTHER = ['dup-first', 'case', 'comma', 'unterminated']
+
+
+def cookie_header(spec, served):
+    """Cookie header for a request's cookie spec: None | str (literal value) | {'ref': j | 'v': str, 'fmt': name} |
+    {'raw': header}; `served` = the ids served so far in this run"""
+    if spec is None:
+        return None
+    if isinstance(spec, str):
+        return 'circuits=%s' % spec
+    if 'raw' in spec:
+        return spec['raw']
+    v = served[spec['ref']] if 'ref' in spec else spec['v']
+    return COOKIE_FMT[spec.get('fmt', 'plain')](v)
+
 
 def gen_sess_case(rng):
     n = rng.randint(2, 6)
-    reqs, issued = [], []
+    reqs = []
     for i in range(n):
         ip, agent = rng.choice(IPS[:3]), rng.choice(AGENTS[:4])
         uid = '%08x' % (rng.getrandbits(24) * 256 + i)
         r = rng.random()
-        if not issued or r < 0.15:
+        if i == 0 or r < 0.15:
             cookie = None
-        elif r < 0.60:
-            cookie = rng.choice(issued)
-            if rng.random() < 0.6:        # replay it from the client it was issued to
-                j = issued.index(cookie)
+        elif r < 0.62:
+            j = rng.randrange(i)
+            cookie = {'ref': j}                        # the id served to request j
+            if rng.random() < 0.6:                     # ... presented by the client it was served to
                 ip, agent = reqs[j]['ip'], reqs[j]['agent']
+            elif rng.random() < 0.3:                   # ... or by a different client with the same ip+agent text
+                twins = {('10.0.0.1', '2UA'): ('10.0.0.12', 'UA'), ('10.0.0.12', 'UA'): ('10.0.0.1', '2UA')}
+                ip, agent = twins.get((reqs[j]['ip'], reqs[j]['agent']), (ip, agent))
+            f = rng.random()
+            if f < 0.35:
+                cookie['fmt'] = rng.choice(FMT_SAME)
+            elif f < 0.45:
+                cookie['fmt'] = rng.choice(FMT_OTHER)
         elif r < 0.70:
-            cookie = rng.choice(issued).split('/')[0]                       # id without fingerprint
+            cookie = reqs[rng.randrange(i)]['uuid']                                   # id without fingerprint
         elif r < 0.80:
-            cookie = rng.choice(issued).split('/')[0] + '/' + fp(ip, agent)  # somebody's id + own fingerprint
+            cookie = reqs[rng.randrange(i)]['uuid'] + '/' + rng.choice([fp, fp_concat])(ip, agent)   # + own fingerprint
         elif r < 0.88:
             cookie = rng.choice(['', '/', 'x', 'x/', '/' + fp(ip, agent), 'a/b/' + fp(ip, agent), fp(ip, agent)])
         else:
-            cookie = rng.choice(issued) + rng.choice(['0', '/', '/' + fp(ip, agent)])
+            j = rng.randrange(i)
+            cookie = {'raw': rng.choice(['circuits', '=x', 'circuits=a b', 'a=1; b=2', 'circuits=""', 'circuits=%s/%s;;' % (
+                reqs[j]['uuid'], fp(reqs[j]['ip'], reqs[j]['agent']))])}
         a = rng.random()
         act = ['w', rng.randint(1, 9)] if a < 0.5 else (['x'] if a < 0.6 else ['r'])
         reqs.append({'cookie': cookie, 'ip': ip, 'agent': agent, 'act': act, 'uuid': uid})
-        issued.append(uid + '/' + fp(ip, agent))
     return {'k': 'sess', 'reqs': reqs}
 
 
@@ -616,10 +697,31 @@ def sess_table():
     out = []
     u0, u1 = 'a' * 8, 'b' * 8
     first = {'cookie': None, 'ip': '10.0.0.1', 'agent': 'UA', 'act': ['w', 7], 'uuid': u0}
-    sid = u0 + '/' + fp('10.0.0.1', 'UA')
     for ip, agent in itertools.product(['10.0.0.1', '10.0.0.2'], ['UA', 'UB', None]):
-        for cookie in [sid, None, u0, u0 + '/' + fp(ip, agent), 'zz/' + fp(ip, agent), sid + '/' + fp(ip, agent), '']:
+        for cookie in [{'ref': 0}, None, u0, u0 + '/' + fp(ip, agent), 'zz/' + fp(ip, agent),
+                       u0 + '/' + fp('10.0.0.1', 'UA') + '/' + fp(ip, agent), '']:
             out.append({'k': 'sess', 'reqs': [first, {'cookie': cookie, 'ip': ip, 'agent': agent, 'act': ['r'], 'uuid': u1}]})
+    # two different (address, agent) pairs whose concatenation is the same text
+    for a, b in [(('10.0.0.1', '2UA'), ('10.0.0.12', 'UA')), (('10.0.0.12', 'UA'), ('10.0.0.1', '2UA')),
+                 (('10.0.0.1', ''), ('10.0.0.', '1')), (('::1', 'UA'), ('::', '1UA'))]:
+        out.append({'k': 'sess', 'reqs': [
+            {'cookie': None, 'ip': a[0], 'agent': a[1], 'act': ['w', 5], 'uuid': u0},
+            {'cookie': {'ref': 0}, 'ip': b[0], 'agent': b[1], 'act': ['r'], 'uuid': u1},
+            {'cookie': {'ref': 0}, 'ip': a[0], 'agent': a[1], 'act': ['r'], 'uuid': 'c' * 8}]})
+    # B presents A's id and is given a replacement; A then presents B's replacement: it must not be A's session
+    for a, b in [(('10.0.0.1', 'UA'), ('10.0.0.2', 'UA')), (('10.0.0.1', 'UA'), ('10.0.0.1', 'UB')),
+                 (('10.0.0.2', None), ('10.0.0.2', 'UA'))]:
+        for act in (['w', 3], ['r']):
+            out.append({'k': 'sess', 'reqs': [
+                {'cookie': None, 'ip': a[0], 'agent': a[1], 'act': ['w', 7], 'uuid': u0},
+                {'cookie': {'ref': 0}, 'ip': b[0], 'agent': b[1], 'act': act, 'uuid': u1},
+                {'cookie': {'ref': 1}, 'ip': a[0], 'agent': a[1], 'act': ['r'], 'uuid': 'c' * 8},
+                {'cookie': {'ref': 1}, 'ip': b[0], 'agent': b[1], 'act': ['r'], 'uuid': 'd' * 8}]})
+    # the owner's cookie in every notation
+    for fmt in sorted(COOKIE_FMT):
+        for ip in ('10.0.0.1', '10.0.0.2'):
+            out.append({'k': 'sess', 'reqs': [first, {'cookie': {'ref': 0, 'fmt': fmt}, 'ip': ip, 'agent': 'UA',
+                                                      'act': ['r'], 'uuid': u1}]})
     return out
 
 
@@ -702,7 +804,7 @@ class C20(Prop):
 
     def __init__(self):
         self._cache = {}
-        self.stats = {'auth_tags': {}, 'auth_outcomes': {}, 'kinds': {}}
+        self.stats = {'auth_tags': {}, 'auth_outcomes': {}, 'kinds': {}, 'cookies': {}, 'authenticated_by_variant': {}}
 
     # ---- cases
     def generate(self, rng, n, tier):
@@ -713,7 +815,7 @@ class C20(Prop):
             r = rng.random()
             if r < 0.05:
                 c = gen_auth_case(rng)
-                if c['fn'] != 'check' and c['method'] != 'HEAD' and e2e_ok_header(c['hdr']):
+                if c['fn'] != 'check' and c['method'] != 'HEAD' and c['ukind'] not in BAD_USERS and e2e_ok_header(c['hdr']):
                     c['k'] = 'e2e'
                 cases.append(c)
             elif r < 0.14:
@@ -779,8 +881,17 @@ class C20(Prop):
         t = c.get('tag', '')
         self.stats['auth_tags'][t] = self.stats['auth_tags'].get(t, 0) + 1
         self.stats['auth_outcomes'][str(tag)] = self.stats['auth_outcomes'].get(str(tag), 0) + 1
+        if tag == 0:
+            self._count_variant(c['hdr'], c, c['ukind'])
         return {'tag': tag, 'login': login, 'status': int(res.status), 'exc': exc,
                 'challenge': 'WWW-Authenticate' in res.headers, 'md5': sorted(tr.table.items())}
+
+    def _count_variant(self, hdr, ch, ukind):
+        v = variant_of(hdr, ch['fn'], ch['enc'])
+        d = self.stats['authenticated_by_variant']
+        d[v] = d.get(v, 0) + 1
+        k = 'users=' + ukind
+        d[k] = d.get(k, 0) + 1
 
     def impl_authseq(self, c):
         """several checks, each with its own (function, realm, users, encrypt), on ONE Request/Response pair
@@ -791,6 +902,8 @@ class C20(Prop):
             for ch in c['checks']:
                 tag, exc = self._one_check(req, res, ch)
                 steps.append({'tag': tag, 'login': self._login(req), 'exc': exc})
+                if tag == 0:
+                    self._count_variant(c['hdr'], ch, ch['ukind'])
         t = 'seq:' + ''.join(str(st['tag']) for st in steps)
         self.stats['auth_tags'][t] = self.stats['auth_tags'].get(t, 0) + 1
         return {'steps': steps, 'md5': sorted(tr.table.items())}
@@ -805,20 +918,22 @@ class C20(Prop):
                 return cur['uuid']
         old = sessions_mod.uuid
         sessions_mod.uuid = lambda: U()
-        out = []
+        out, sent, seen_l, served = [], [], [], []
         try:
             for r in c['reqs']:
                 cur['uuid'] = r['uuid']
                 hs = [('Host', 'h.example'), ('User-Agent', r['agent'])]
-                if r['cookie'] is not None:
-                    hs.append(('Cookie', 'circuits=%s' % r['cookie']))
+                raw = cookie_header(r['cookie'], served)
+                if raw is not None:
+                    hs.append(('Cookie', raw))
                 req, res = mkreq(ip=r['ip'], headers=hs)
-                if r['cookie'] is not None:
-                    seen = req.cookie['circuits'].value if 'circuits' in req.cookie else None
-                    if seen != r['cookie']:
-                        raise AssertionError('harness: cookie %r arrived as %r' % (r['cookie'], seen))
+                # what http.cookies.SimpleCookie made of the header: the id this request presents
+                seen = req.cookie['circuits'].value if 'circuits' in req.cookie else None
+                sent.append(raw)
+                seen_l.append(seen)
                 S.request(req, res)
                 sid = res.cookie['circuits'].value
+                served.append(sid)
                 data = dict(req.session)
                 if set(data) - {'v'}:
                     raise AssertionError('harness: unexpected session content %r' % data)
@@ -831,7 +946,10 @@ class C20(Prop):
                     req.session.expire()
         finally:
             sessions_mod.uuid = old
-        return out
+        for x in seen_l:
+            t = 'absent' if x is None else 'value'
+            self.stats['cookies'][t] = self.stats['cookies'].get(t, 0) + 1
+        return {'steps': out, 'sent': sent, 'seen': seen_l}
 
     def _vrun(self, vh, c, host, xfh, ip=None):
         req, res = mkreq(ip=ip or c['ip'], path=c['path'], headers=[('Host', host), ('X-Forwarded-Host', xfh)])
@@ -861,6 +979,10 @@ class C20(Prop):
             self.safe_impl_cached(c)
         obs = self._cache.get(key)
         k = c['k']
+        if k in ('auth', 'e2e') and c['ukind'] in BAD_USERS:
+            return None          # configuration error (ValueError), judged by the oracle only
+        if k == 'authseq' and any(ch['ukind'] in BAD_USERS for ch in c['checks']):
+            return None
         if k in ('auth', 'e2e'):
             hdr = c['hdr']
             b64t, utf8t, keqvt = self._header_tables(hdr)
@@ -881,22 +1003,30 @@ class C20(Prop):
                 md5t = md5t + [[p, md5hex(p)] for p in self._basic_passwords(hdr)]
             checks = '; '.join('outcome_of tb tu tm tk %d%%nat %d%%nat th tmeth %s %s' % (
                 1 if ch['fn'] == 'digest' else 0, ch['enc'], cstr(ch['realm']), cpairs(ch['users'])) for ch in c['checks'])
-            return ('(let tb := [%s] in let tu := [%s] in let tm := %s in let tk := [%s] in let th := %s in '
+            return ('(let tb : list (str * option (list N)) := [%s] in let tu : list (str * option (list N)) := [%s] in '
+                    'let tm : list (str * str) := %s in let tk : list (str * option params) := [%s] in let th := %s in '
                     'let tmeth := %s in obs_auth_seq [%s])' % (
                         '; '.join(b64t), '; '.join(utf8t), cpairs(md5t), '; '.join(keqvt), copt(hdr, cstr),
                         cstr(c['method']), checks))
         if k == 'sess':
             shat = {}
             for r in c['reqs']:
-                s = '%s%s' % (r['ip'], r['agent'] or '')
-                shat[s] = hashlib.sha1(s.encode('utf-8')).hexdigest()
+                t = '%s|%s' % (r['ip'], r['agent'] or '')
+                shat[t] = hashlib.sha1(t.encode('utf-8')).hexdigest()
+            sent = obs['sent'] if isinstance(obs, dict) and 'sent' in obs else [None] * len(c['reqs'])
+            seen = obs['seen'] if isinstance(obs, dict) and 'seen' in obs else [None] * len(c['reqs'])
+            ct = {}
+            for h_, v_ in zip(sent, seen):         # the cookie parser as an oracle table: raw header -> value
+                if h_ is not None:
+                    ct[h_] = v_
             h = []
-            for r in c['reqs']:
+            for r, raw in zip(c['reqs'], sent):
                 a = r['act']
                 act = 'Read' if a[0] == 'r' else 'Expire' if a[0] == 'x' else '(Write %d)' % a[1]
-                h.append('(mkreq %s %s %s, %s, %s)' % (copt(r['cookie'], cstr), cstr(r['ip']), cstr(r['agent'] or ''),
-                                                      act, cstr(r['uuid'])))
-            return 'obs_session %s [%s]' % (cpairs(sorted(shat.items())), '; '.join(h))
+                ck = 'None' if raw is None else '(cookie_tbl ct %s)' % cstr(raw)
+                h.append('(mkreq %s %s %s, %s, %s)' % (ck, cstr(r['ip']), cstr(r['agent'] or ''), act, cstr(r['uuid'])))
+            ctl = '[%s]' % '; '.join('(%s, %s)' % (cstr(k_), copt(v_, cstr)) for k_, v_ in sorted(ct.items()))
+            return '(let ct : list (str * option str) := %s in obs_session %s [%s])' % (ctl, cpairs(sorted(shat.items())), '; '.join(h))
         if k == 'vhost':
             jt = []
             for d, p in c['domains']:
@@ -957,7 +1087,7 @@ class C20(Prop):
         if k == 'e2e':
             return bool(obs['secret'])
         if k == 'sess':
-            return obs
+            return obs['steps']
         return obs['path']
 
     # ---- oracle: the property's predicate on the real code's behaviour
@@ -989,19 +1119,19 @@ class C20(Prop):
                 return 'refused request answered with status %d' % obs['status']
             return None
         if k == 'sess':
-            served = {}      # sid -> fingerprint of the requests it was served to
-            for r, (sid, data) in zip(c['reqs'], obs):
-                me = fp(r['ip'], r['agent'])
+            served = {}      # sid -> the client (address, user agent) it was served to
+            for r, (sid, data), presented in zip(c['reqs'], obs['steps'], obs['seen']):
+                me = (r['ip'], r['agent'] or '')
                 if sid in served:
-                    if r['cookie'] != sid:
-                        return 'request without cookie %r was given the existing session id %r' % (sid, sid)
+                    if presented != sid:
+                        return 'a request presenting %r was given the existing session id %r' % (presented, sid)
                     if served[sid] != me:
-                        return ('session %r (data %r) of fingerprint %s returned to a request with fingerprint %s'
-                                % (sid, data, served[sid][:8], me[:8]))
+                        return ('session %r (data %r) of client %r returned to a request from client %r'
+                                % (sid, data, served[sid], me))
                 else:
                     if data:
                         return 'a fresh session id %r came with data %r' % (sid, data)
-                    if r['cookie'] != sid and not sid.startswith(r['uuid'] + '/'):
+                    if presented != sid and not sid.startswith(r['uuid'] + '/'):
                         return 'fresh session id %r is not derived from the uuid drawn for this request' % sid
                 served.setdefault(sid, me)
             return None
@@ -1024,6 +1154,10 @@ class C20(Prop):
     def _judge_check(self, c, ch, tag, login, status, challenge):
         """the property's predicate for ONE check with configuration c (hdr, method, realm, users, fn, enc);
         status/challenge None = not judged (later checks on a shared response)"""
+        if c['ukind'] in BAD_USERS:      # `users` is not a table: nothing can verify against it
+            if tag == 0:
+                return 'authenticated although `users` (%s) is neither a dict nor a callable giving one' % c['ukind']
+            return None
         if login[0] == 3:
             return 'request.login is %s' % login[1]
         if tag == 0:
